@@ -69,3 +69,95 @@ def twin_frames_clamped(n: int, i0: int) -> bool:
     f = _pick(IDX, i0)
     rots, poss, inds = get_rot_pos_from_path(_Obj(L), show_path=[f])
     return not (f >= L and list(inds) == [L - 1])
+
+
+# ---------------------------------------------------------------------------- "displaying never modifies the objects, their styles or the global defaults"
+import magpylib as _magpy
+from magpylib._src.display.traces_generic import process_animation_kwargs
+from magpylib._src.utility import style_temp_edit
+
+
+class _Style:
+    def copy(self):
+        return _Style()
+
+
+class _Holder:
+    pass
+
+
+def h_style_restored_after_drawing(fail: bool, copy: bool, has_temp: bool, had_style: bool) -> bool:
+    """
+    post: _
+    """
+    # the temporary (resolved) style is installed only for the duration of the drawing - also when the drawing raises
+    ob = _Holder()
+    orig = _Style() if had_style else None
+    ob._style = orig
+    temp = _Style() if has_temp else None
+    seen = []
+    try:
+        with style_temp_edit(ob, temp, copy=copy):
+            seen.append(ob._style)
+            if fail:
+                raise KeyError("drawing failed")
+    except KeyError:
+        pass
+    during_ok = (seen[0] is None) if not has_temp else (isinstance(seen[0], _Style) and seen[0] is not orig and ((seen[0] is temp) != copy))
+    return ob._style is orig and during_ok
+
+
+def twin_style_restored_after_drawing(fail: bool, copy: bool) -> bool:
+    """
+    post: _
+    """
+    ob = _Holder()
+    ob._style = _Style()
+    try:
+        with style_temp_edit(ob, _Style(), copy=copy):
+            if fail:
+                raise KeyError("drawing failed")
+    except KeyError:
+        return False  # the failing branch is reachable
+    return True
+
+
+_PATH_OBJ = _magpy.magnet.Cuboid(polarization=(0, 0, 1), dimension=(1, 1, 1), position=[(0, 0, 0), (1, 0, 0), (2, 0, 0)])
+
+
+FPS = (1, 3, 20, 50, 120)
+FRAMES = (1, 5, 200, 500)
+SECS = (1, 2, 5, 60)
+
+
+def h_animation_settings_do_not_leak(i_fps: int, i_maxfps: int, i_frames: int, i_secs: int, slider: bool, by_number: bool) -> bool:
+    """
+    pre: 0 <= i_fps <= 4 and 0 <= i_maxfps <= 4 and 0 <= i_frames <= 3 and 0 <= i_secs <= 3
+    post: _
+    """
+    # animation settings given in a show() call apply to that call only: the global defaults are the same before and after.
+    # (values are picked from committed tuples by symbolic selectors: CrossHair runs builtin setattr(), hence the validators of the
+    #  defaults classes, outside its tracer, so the values themselves cannot stay symbolic)
+    fps, maxfps, maxframes, secs = _pick(FPS, i_fps), _pick(FPS, i_maxfps), _pick(FRAMES, i_frames), _pick(SECS, i_secs)
+    slider = True if slider else False  # concrete per path (see above)
+    anim = _magpy.defaults.display.animation
+    before = anim.as_dict()
+    kw = {"animation_fps": fps, "animation_maxfps": maxfps, "animation_maxframes": maxframes, "animation_slider": slider}
+    if not by_number:
+        kw["animation_time"] = secs
+    rest, animation, akw = process_animation_kwargs([_PATH_OBJ], animation=(secs if by_number else True), opacity=0.5, **kw)
+    after = anim.as_dict()
+    if after != before:
+        anim.update(**before)  # do not let one path pollute the next one
+    call_ok = (animation is True and akw["animation_fps"] == fps and akw["animation_maxfps"] == maxfps and akw["animation_maxframes"] == maxframes
+               and akw["animation_time"] == secs and akw["animation_slider"] == slider and rest == {"opacity": 0.5})
+    return after == before and call_ok
+
+
+def twin_animation_settings_do_not_leak(i_fps: int, i_secs: int) -> bool:
+    """
+    pre: 0 <= i_fps <= 4 and 0 <= i_secs <= 3
+    post: _
+    """
+    rest, animation, akw = process_animation_kwargs([_PATH_OBJ], animation=True, animation_fps=_pick(FPS, i_fps), animation_time=_pick(SECS, i_secs))
+    return akw["animation_fps"] == _magpy.defaults.display.animation.fps
